@@ -31,7 +31,7 @@ def valuations(names):
 
 
 def run(ctx, report):
-    L = LifterModel(ctx, opmodes=('u32', 'u16') if ctx.tier == 'thorough' else ('u32',), rich=(ctx.tier == 'thorough'))
+    L = LifterModel(ctx, opmodes=('u32', 'u16'), rich=True)
     I = L.I
     sem = L.sem
     ccref = load_cc_ref()
